@@ -43,3 +43,55 @@ def random_term(rng, depth=3, max_index=4, holes=False, cells=None, names=("a", 
             j["kids"] = [go(d - 1) for _ in range(ARITY[c])]
         return j
     return go(depth)
+
+
+def random_program(rng, depth=3, holes=True, groups=2, scope=0, names=("a", "b", "f", "x", "y")):
+    """A random closed, parser-shaped term (JSON) and its table of hole cells."""
+    cells = {}
+    counter = [0]
+
+    def sr():
+        s = rng.randint(0, 40)
+        return [s, s + rng.randint(1, 9)]
+
+    def hole(shift):
+        cid = "h%d" % counter[0]
+        counter[0] += 1
+        cells[cid] = None
+        return {"v": "Unifier", "cell": cid, "shift": shift, "sr": None}
+
+    def go(d, sc, no_let=False):
+        leaf = ["Type", "Integer", "Boolean", "True", "False", "IntegerLiteral"] + (["Variable"] * 3 if sc > 0 else [])
+        if holes:
+            leaf.append("Unifier")
+        inner = ["Lambda", "Pi", "Application", "Negation", "If"] + BINARY + ([] if no_let else ["Let"])
+        if d <= 1 or rng.random() < 0.25:
+            c = rng.choice(leaf)
+        else:
+            c = rng.choice(inner)
+        j = {"v": c, "sr": sr()}
+        if c == "Variable":
+            j["name"] = rng.choice(names)
+            j["index"] = rng.randint(0, sc - 1)
+        elif c == "Unifier":
+            return hole(0)
+        elif c == "IntegerLiteral":
+            j["value"] = str(rng.choice([0, 1, -1, 2, 7, 10 ** 20, rng.randint(-100, 100)]))
+        elif c in ("Lambda", "Pi"):
+            j["name"] = rng.choice(names)
+            j["implicit"] = rng.random() < 0.15
+            dom = hole(0) if (holes and c == "Lambda" and rng.random() < 0.3) else go(d - 1, sc)
+            j["kids"] = [dom, go(d - 1, sc + 1)]
+        elif c == "Let":
+            n = rng.randint(1, groups)
+            defs = []
+            for i in range(n):
+                ann = hole(n - i) if (holes and rng.random() < 0.5) else go(d - 1, sc + n)
+                defs.append({"name": rng.choice(names), "ann": ann, "def": go(d - 1, sc + n)})
+            j["defs"] = defs
+            j["body"] = go(d - 1, sc + n, no_let=True)
+        else:
+            j["kids"] = [go(d - 1, sc) for _ in range(ARITY[c])]
+        return j
+    t = go(depth, scope)
+    return t, cells
